@@ -16,6 +16,13 @@ NOTES = ("Every check = TLA+ specification under spec/ checked by TLC + conforma
          "known_findings.json lists genuine defects (known / fixed).")
 NOT_APPLICABLE = {}
 CHECKS = {
+    "C16": {
+        "level": "model_checking",
+        "technique": "TLA+ spec Stacking.tla (CSS 2.1 Appendix E painter as a stack machine, declarative Order, invariants Agree/Once/BgFirst/Layering/Atomic, liveness) model-checked by TLC; every arrangement rendered on the recording backend and the order of fills and text drawings compared with the specification's event sequence",
+        "text": "TLC proves on every bounded tree that the stack machine emits the declarative Appendix E order and that contexts are atomic and layered, and emits "
+                "the paint order; the real drawing must fill the boxes' backgrounds and draw their words in that order.",
+        "note": "One background + one word per box; two known findings (overflow:hidden boxes are stacking contexts; a positioned float in a line is painted after a later sibling).",
+    },
     "C09": {
         "level": "model_checking",
         "technique": "TLA+ spec BoxTree.tla (element-tree builder, declarative WellFormed/Failures, reference generator Raw/IIB/BII with TLC-checked invariant GenWellFormed) model-checked by TLC; every tree built by the real cascade + boxes.BuildFormattingStructure, compared with the reference generator on the block/inline subset, and every real box tree validated as a trace by TLC (BoxTreeTrace.tla)",
